@@ -707,3 +707,46 @@ def sbs_options(rng, line_numbers=None, width=None):
     if rng.random() < 0.3:
         o['--dark' if rng.random() < 0.5 else '--light'] = True
     return o, meta
+
+
+def roles_from_unified(visible_lines):
+    """Roles (header / hunkheader / hunk / note / meta) of the lines of real unified-diff output, derived
+    from the hunk headers' counts (the only reliable way to tell '--- x' content from a header)."""
+    import re
+    roles = []
+    old = new = 0
+    for l in visible_lines:
+        if old > 0 or new > 0:
+            c = l[:1]
+            if c == ' ' or c == '':
+                old -= 1
+                new -= 1
+                roles.append('hunk')
+                continue
+            if c == '-':
+                old -= 1
+                roles.append('hunk')
+                continue
+            if c == '+':
+                new -= 1
+                roles.append('hunk')
+                continue
+            if c == '\\':
+                roles.append('note')
+                continue
+            old = new = 0
+        m = re.match(r'^@@ -(\d+)(?:,(\d+))? \+(\d+)(?:,(\d+))? @@', l)
+        if m:
+            old = int(m.group(2)) if m.group(2) is not None else 1
+            new = int(m.group(4)) if m.group(4) is not None else 1
+            roles.append('hunkheader')
+        elif l.startswith('\\'):
+            roles.append('note')
+        elif l.startswith('commit '):
+            roles.append('commit')
+        elif l.startswith(('diff ', 'index ', '--- ', '+++ ', 'new file', 'deleted file', 'old mode', 'new mode', 'similarity',
+                           'rename ', 'copy ', 'Binary ', 'Submodule ')):
+            roles.append('header')
+        else:
+            roles.append('meta')
+    return roles
